@@ -775,15 +775,15 @@ fn gen_case(seed: u64, seeds_on: bool, thorough: bool) -> Case {
     Case { histories: hs, writer_faults: wf }
 }
 
-fn minimise(case: &Case, okey: &str) -> (Case, usize) {
+fn minimise(case: &Case, pred: &dyn Fn(&Value) -> bool) -> (Case, usize) {
     let mut best = case.clone();
     let mut tried = 0usize;
     let fails = |c: &Case, tried: &mut usize| -> bool {
-        if *tried >= 500 {
+        if *tried >= 300 {
             return false;
         }
         *tried += 1;
-        fresh_thread(|| check_case(c)).key.map(|(k, _)| k == okey).unwrap_or(false)
+        pred(&c.to_json())
     };
     // fewest histories
     let mut progress = true;
@@ -890,7 +890,7 @@ fn minimise(case: &Case, okey: &str) -> (Case, usize) {
                 }
             }
         }
-        if tried >= 500 {
+        if tried >= 300 {
             break;
         }
     }
@@ -903,122 +903,169 @@ fn case_key(okey: &str, c: &Case) -> String {
     format!("{okey}:{:08x}", f.get() as u32)
 }
 
-pub fn run(tier: &str) -> i32 {
+/// One case = one content group (4-12 histories + decoys + writer faults).
+pub fn case(batch: &str, tier: &str, i: u64) -> CaseOut {
     let vs = verif_seed();
+    let seeds_on = batch == "seeded-hasher";
+    let seed = run_seed(vs, "C17", batch, i);
+    let case = gen_case(seed, seeds_on, tier != "quick");
+    let r = check_case(&case);
+    let mut out = CaseOut { index: i, seed, ..Default::default() };
+    out.evals = case.histories.len() as u64;
+    out.steps = case.histories.len() as u64;
+    let mut lf = Fold::new();
+    lf.add(r.content_hash);
+    for t in &r.texts {
+        lf.add_str(t);
+    }
+    out.log = lf.get();
+    if r.content_len >= 2 {
+        for fp in &r.order_fps {
+            out.distinct.push(crate::rng::mix(r.content_hash, *fp));
+        }
+    }
+    let mut probe = |k: &str, n: u64| *out.probes.entry(k.to_string()).or_insert(0) += n;
+    probe("content_groups", 1);
+    probe("equal_pairs_compared", r.compared_pairs);
+    probe("history_pairs_not_equal_so_not_compared", r.unequal_histories);
+    probe("max_distinct_iteration_orders_for_one_content", 0);
+    if r.orders >= 2 {
+        probe("contents_reached_with_2plus_iteration_orders", 1);
+    }
+    if r.orders >= 5 {
+        probe("contents_reached_with_5plus_iteration_orders", 1);
+    }
+    let mut fault = |k: &str, n: u64| *out.faults.entry(k.to_string()).or_insert(0) += n;
+    if r.unequal_histories > 0 {
+        fault("interleaved_display_of_other_range_same_combos", 1);
+    }
+    fault("display_writer_error_midway", r.writer_errors_fired);
+    for h in &case.histories {
+        match h.how {
+            How::Parse => fault("history_parse", 1),
+            How::NoHint => fault("history_incremental_growth", 1),
+            How::Pairs => fault("history_from_card_pairs", 1),
+            How::Collect => fault("history_collect", 1),
+        }
+        if h.hint.is_some() {
+            fault("forced_capacity", 1);
+        }
+        if h.hash_seed != 0 {
+            fault("hash_perturb", 1);
+        }
+        if h.clones > 0 {
+            fault("history_clone", 1);
+        }
+        if h.entries.len() > h.distinct_len() {
+            fault("stale_overwrites", 1);
+        }
+    }
+    if let Some(t) = r.texts.first() {
+        let mut probe = |k: &str, n: u64| *out.probes.entry(k.to_string()).or_insert(0) += n;
+        if t.contains('+') {
+            probe("texts_with_plus_token", 1);
+        }
+        if t.contains('-') {
+            probe("texts_with_closed_range_token", 1);
+        }
+        if t.is_empty() {
+            probe("empty_range_text", 1);
+        }
+        if r.orders >= 3 && t.len() > 10 && t.len() < 200 {
+            out.sample = Some(json!({"text": t, "combos": r.content_len, "histories": case.histories.iter().map(recipe_short).collect::<Vec<_>>(), "distinct_iteration_orders": r.orders, "writer_faults": case.writer_faults.len()}));
+        }
+    }
+    out.extra = json!({"orders": r.orders});
+    if let Some((okey, detail)) = r.key {
+        out.violation = Some((okey, detail, case.to_json()));
+    }
+    out
+}
+
+pub fn eval(v: &Value) -> Option<(String, String)> {
+    let case = Case::from_json(v).ok()?;
+    check_case(&case).key
+}
+
+pub fn run(tier: &str) -> i32 {
     let quick = tier == "quick";
     let mut ev = Evidence::new("C17", tier, "exploration");
-    ev.rule = "one evaluation = one construction history (a HandRange built along one insertion order / overwrite pattern / capacity / growth mode / parse text / clone depth / hasher seed and printed); histories are grouped 4-12 per target contents. distinct_nontrivial = distinct (contents, backing-map iteration order) pairs over contents of >= 2 combos, measured from the real map's iteration order".into();
+    ev.rule = "one evaluation = one construction history (a HandRange built along one insertion order / overwrite pattern / capacity / growth mode / parse text / clone depth / hasher seed and printed); histories are grouped 4-12 per target contents, with decoy ranges and writer faults in between. distinct_nontrivial = distinct (contents, backing-map iteration order) pairs over contents of >= 2 combos, measured from the real map's iteration order".into();
     ev.assumptions = vec![
         "domain: combos of two distinct cards, weights in [0,1] on exact f32 values, no NaN (with NaN the premise 'equal ranges' is false)".into(),
         "only ranges that compare == under the library's own PartialEq are required to print identically".into(),
         "order among high cards and among kickers is not demanded beyond identical text; the spelling chosen for a run is free (tokens are decoded by meaning); multiplicity of leftover combos is not checked (the shipped formatter prints leftover pocket combos twice, pinned by an existing test)".into(),
         "hasher seed != 0 exists only under cfg(espada_verif); seed 0 is bit-for-bit the shipped FxBuildHasher and every group contains a seed-0 history".into(),
+        "cases run in child processes, a deterministic chunk of case indexes per process, each case on a fresh thread".into(),
     ];
     let mut logfold = Fold::new();
-    let mut orders_per_content_max = 0usize;
-    for (batch, seeds_on, n) in [
-        ("shipped-hasher", false, if quick { 1500usize } else { 120_000 }),
-        ("seeded-hasher", true, if quick { 3500 } else { 600_000 }),
+    let mut orders_per_content_max = 0u64;
+    let chunk: u64 = if quick { 16 } else { 256 };
+    for (batch, n) in [
+        ("shipped-hasher", if quick { 1500u64 } else { 120_000 }),
+        ("seeded-hasher", if quick { 3500 } else { 600_000 }),
     ] {
-        let thorough = !quick;
-        let results = par_map(n, workers(), move |i| {
-            let seed = run_seed(vs, "C17", batch, i as u64);
-            let case = gen_case(seed, seeds_on, thorough);
-            let r = fresh_thread(|| check_case(&case));
-            (seed, case, r)
-        });
-        for (seed, case, r) in results {
-            ev.evaluations += case.histories.len() as u64;
-            ev.steps += case.histories.len() as u64;
-            logfold.add(r.content_hash);
-            for t in &r.texts {
-                logfold.add_str(t);
+        let chunks = run_batch("C17", batch, n, chunk, tier, false);
+        for (ci, ch) in chunks.iter().enumerate() {
+            let chunk_first = ci as u64 * chunk;
+            if let Some((i, how)) = &ch.died {
+                ev.violations.push(Violation {
+                    property: "C17".into(),
+                    oracle: "process_died".into(),
+                    key: format!("process_died:history:{batch}:{chunk_first}..={i}"),
+                    detail: format!("the process formatting ranges ended with {how} at case {i} of batch '{batch}'"),
+                    seed: verif_seed(),
+                    replay: json!({"kind":"chunk","batch":batch,"first":chunk_first,"upto":i,"tier":tier,"expected_oracle":"process_died"}),
+                });
             }
-            if r.content_len >= 2 {
-                for fp in &r.order_fps {
-                    ev.distinct.insert(crate::rng::mix(r.content_hash, *fp));
+            for c in &ch.cases {
+                ev.merge_case(c);
+                logfold.add(c.log);
+                orders_per_content_max = orders_per_content_max.max(c.extra["orders"].as_u64().unwrap_or(0));
+                if let Some(sm) = &c.sample {
+                    if ev.samples.len() < 10 {
+                        ev.sample(sm.clone());
+                    }
                 }
-            }
-            orders_per_content_max = orders_per_content_max.max(r.orders);
-            ev.probe("content_groups", 1);
-            ev.probe("equal_pairs_compared", r.compared_pairs);
-            ev.probe("history_pairs_not_equal_so_not_compared", r.unequal_histories);
-            if r.unequal_histories > 0 {
-                ev.fault("interleaved_display_of_other_range_same_combos", 1);
-            }
-            ev.fault("display_writer_error_midway", r.writer_errors_fired);
-            if r.orders >= 2 {
-                ev.probe("contents_reached_with_2plus_iteration_orders", 1);
-            }
-            if r.orders >= 5 {
-                ev.probe("contents_reached_with_5plus_iteration_orders", 1);
-            }
-            for h in &case.histories {
-                match h.how {
-                    How::Parse => ev.fault("history_parse", 1),
-                    How::NoHint => ev.fault("history_incremental_growth", 1),
-                    How::Pairs => ev.fault("history_from_card_pairs", 1),
-                    How::Collect => ev.fault("history_collect", 1),
-                }
-                if h.hint.is_some() {
-                    ev.fault("forced_capacity", 1);
-                }
-                if h.hash_seed != 0 {
-                    ev.fault("hash_perturb", 1);
-                }
-                if h.clones > 0 {
-                    ev.fault("history_clone", 1);
-                }
-                if h.entries.len() > h.distinct_len() {
-                    ev.fault("stale_overwrites", 1);
-                }
-            }
-            if let Some(t) = r.texts.first() {
-                if t.contains('+') {
-                    ev.probe("texts_with_plus_token", 1);
-                }
-                if t.contains('-') {
-                    ev.probe("texts_with_closed_range_token", 1);
-                }
-                if t.is_empty() {
-                    ev.probe("empty_range_text", 1);
-                }
-                if ev.samples.len() < 10 && r.orders >= 3 && t.len() > 10 && t.len() < 200 {
-                    ev.sample(json!({"text": t, "combos": r.content_len, "histories": case.histories.iter().map(recipe_short).collect::<Vec<_>>(), "distinct_iteration_orders": r.orders}));
-                }
-            }
-            if let Some((okey, _)) = &r.key {
-                if ev.violations.len() < 5 {
-                    let (min, tried) = minimise(&case, okey);
-                    let fin = fresh_thread(|| check_case(&min));
-                    let detail = fin.key.map(|x| x.1).unwrap_or_else(|| r.key.as_ref().unwrap().1.clone());
-                    let mut rj = min.to_json();
-                    rj["shrink_candidates"] = json!(tried);
-                    ev.violations.push(Violation {
-                        property: "C17".into(),
-                        oracle: okey.clone(),
-                        key: case_key(okey, &min),
-                        detail,
-                        seed,
-                        replay: rj,
-                    });
-                } else {
-                    ev.probe("further_violations_not_minimised", 1);
+                if c.violation.is_some() {
+                    if ev.violations.len() < 5 {
+                        let min_fn = |replay: &Value, _okey: &str, pred: &dyn Fn(&Value) -> bool| -> (Value, usize) {
+                            match Case::from_json(replay) {
+                                Ok(cs) => {
+                                    let (m, t) = minimise(&cs, pred);
+                                    (m.to_json(), t)
+                                }
+                                Err(_) => (replay.clone(), 0),
+                            }
+                        };
+                        let key_fn = |okey: &str, min: &Value| -> String {
+                            Case::from_json(min).map(|cs| case_key(okey, &cs)).unwrap_or_else(|_| okey.to_string())
+                        };
+                        ev.violations.push(settle_violation("C17", batch, tier, false, chunk_first, c, &min_fn, &key_fn));
+                    } else {
+                        ev.probe("further_violations_not_minimised", 1);
+                    }
                 }
             }
         }
     }
+    ev.probes.remove("max_distinct_iteration_orders_for_one_content");
     ev.extra.insert("max_distinct_iteration_orders_for_one_content".into(), json!(orders_per_content_max));
     ev.extra.insert("event_log_digest".into(), json!(format!("{:016x}", logfold.get())));
     ev.extra.insert("components".into(), json!({
         "real": ["HandRange FromIterator/parse/clone/PartialEq/Display", "HandRangeToken parse+Display", "rank_pairs()/orphan_card_pairs()"],
         "stub": [],
-        "simulated": ["insertion history", "table capacity via size_hint", "hasher seed (hook, cfg(espada_verif))"],
+        "simulated": ["insertion history", "table capacity via size_hint", "hasher seed (hook, cfg(espada_verif))", "order of Display calls across ranges", "failing fmt::Write sink"],
     }));
     ev.finish()
 }
 
 pub fn replay(v: &Value) -> Option<(String, String)> {
-    let case = Case::from_json(&v["replay"]).ok()?;
-    check_case(&case).key.map(|(k, d)| (case_key(&k, &case), d))
+    let r = &v["replay"];
+    if r["kind"].as_str() == Some("chunk") {
+        return replay_chunk("C17", r);
+    }
+    let case = Case::from_json(r).ok()?;
+    // evaluated in a fresh process, like every case
+    eval_in_child("C17", r, false).map(|(k, d)| (case_key(&k, &case), d))
 }
